@@ -209,6 +209,7 @@ func (e *Engine) Explore(init *State) {
 				if len(opts) > 1 {
 					sv := e.tb.Var(8, "s_"+itoa(layer))
 					s.SPC = e.tb.And(s.SPC, e.tb.Eq(sv, e.tb.Const(8, uint64(i))))
+					s.SPCN++
 				}
 				e.applyOption(s, op, layer, i)
 				e.work = append(e.work[:0], s)
@@ -245,6 +246,7 @@ func (e *Engine) Explore(init *State) {
 							old.PC = e.tb.Or(old.PC, x.PC)
 						}
 						old.SPC = e.tb.Or(old.SPC, x.SPC)
+						old.SPCN += x.SPCN + 1
 						e.Stats.Merged++
 						continue
 					}
